@@ -728,6 +728,7 @@ class Ref:
     t_solver = t_optimize
     t_det_mutate = t_optimize  # a detached object is edited: no model may change
     t_removed_mutate = t_optimize  # a removed reaction object is edited: the model it came from must not change
+    t_ctx_removed_edit = t_optimize  # an object removed inside the open context is edited: nothing in the model changes now
     t_prune = t_optimize  # returns a new model; the input is left alone
     t_config_bounds = t_optimize  # a process-global default: no model changes
 
